@@ -669,7 +669,6 @@ func (x *Exec) loopBackEdge(st *State, l *Loop) {
 	}
 }
 
-
 // collectLitEqs finds conjuncts of the form (= sym literal) / (= literal sym).
 func collectLitEqs(f Term, out map[string]Term) {
 	s := f.S
@@ -690,9 +689,15 @@ func collectLitEqs(f Term, out map[string]Term) {
 		body := s[3 : len(s)-1]
 		e1 := sexprEnd(body, 0)
 		a, b := strings.TrimSpace(body[:e1]), strings.TrimSpace(body[e1:])
-		if _, ok := (Term{b, SInt}).IsLit(); ok && !strings.ContainsAny(a, "( ") {
+		isLit := func(s string) bool {
+			if _, ok := (Term{s, SInt}).IsLit(); ok {
+				return true
+			}
+			return strings.HasPrefix(s, "lit_") && !strings.ContainsAny(s, "( ")
+		}
+		if isLit(b) && !isLit(a) {
 			out[a] = Term{b, SInt}
-		} else if _, ok := (Term{a, SInt}).IsLit(); ok && !strings.ContainsAny(b, "( ") {
+		} else if isLit(a) && !isLit(b) {
 			out[b] = Term{a, SInt}
 		}
 	}
